@@ -15,6 +15,10 @@ class InvalidNumberOfElementsError(TypeParameterError):
     pass
 
 
+class InvalidElementTypeError(TypeParameterError):
+    pass
+
+
 class ArrayType(SerializableType):
     def __init__(self, element_type: SerializableType, capacity: int):
         super().__init__()
@@ -22,6 +26,10 @@ class ArrayType(SerializableType):
         self._capacity = int(capacity)
         if self._capacity < 1:
             raise InvalidNumberOfElementsError("Array capacity cannot be less than 1")
+        try:
+            _ = element_type.bit_length_set
+        except TypeError as ex:  # Service types are not serializable, hence they cannot be array elements.
+            raise InvalidElementTypeError("Invalid array element type %s: %s" % (element_type, ex)) from None
 
     @property
     def deprecated(self) -> bool:
